@@ -119,10 +119,7 @@ pub fn child_main(spec: &str, registry: &[(&'static str, ChildFn)]) -> ! {
 }
 
 fn spawn_children<E: Runnable>(sub: &str, e: &E, n: usize) -> Vec<(usize, Result<Outcome, String>)> {
-    let exe = match std::env::current_exe() {
-        Ok(p) => p,
-        Err(err) => return vec![(0, Err(format!("current_exe: {err}")))],
-    };
+    let exe = vengine::self_exe();
     let spec = match serde_json::to_value(e)
         .and_then(|est| serde_json::to_string(&ChildSpec { sub: sub.to_string(), est }))
     {
